@@ -72,6 +72,9 @@ def run(tier, seed):
         perm = list(range(len(base["comps"])))
         rng.shuffle(perm)
         variants.append(["compartment order", TR.permute_comps(base, perm)])
+        if not any(o["op"] == "arraypop" for o in base["ops"]):
+            variants.append(["compartment order (the model's declaration only; the stratifications list theirs as before)",
+                             TR.permute_model_comps_only(base, perm)])
         variants.append(["strata order", TR.permute_strata(base, rng)])
         variants.append(["rename", TR.rename(base, lambda s: s == "age")])
         if sum(1 for o in base["ops"] if o["op"] == "strat" and o["kind"] != "age") >= 2:
